@@ -213,5 +213,6 @@ func fillStats(o *RunOut, r *simrt.Run) {
 	o.count("lock_contended", r.St.LockBlocks)
 	o.count("starved_steps", r.St.StarvedSteps)
 	o.count("fault_fired/task_blocked_outside_simulator", r.St.ExternalBlocks)
+	o.count("spin_yields_forced", r.St.SpinYields)
 	o.Unstable = r.Unstable
 }
